@@ -13,6 +13,19 @@ Check ==
                      LET v == Verdict(e.ops, e.rule, e.queries[k])
                      IN (v = "in" /\ ~e.results[k]) \/ (v = "out" /\ e.results[k])}
            nin == Cardinality({k \in 1..Len(e.queries) : e.results[k]})
+           \* agreement with what fill paints: a query point that is the centre of a fully painted
+           \* pixel must be contained, the centre of an untouched pixel must not be (unless it lies on
+           \* the outline, which has no area)
+           Has(f) == f \in DOMAIN e
+           PixOf(q) == LET dx == q[1] - e.gx  dy == q[2] - e.gy
+                       IN IF dx % 2 = 1 /\ dy % 2 = 1 /\ dx \div 2 < e.fw /\ dy \div 2 < e.fh
+                          THEN e.fill_alpha[(dy \div 2) * e.fw + (dx \div 2) + 1] ELSE -1
+           disagree == IF Has("fill_alpha")
+                       THEN {k \in 1..Len(e.queries) :
+                               LET a == PixOf(e.queries[k]) IN
+                               (a = 255 /\ ~e.results[k]) \/ (a = 0 /\ e.results[k] /\ ~OnLoops(FillLoops(e.ops), e.queries[k]))}
+                       ELSE {}
        IN IF bad # {} THEN PrintT(<<"BAD", i, e.id, {e.queries[k] : k \in bad}>>)
+          ELSE IF disagree # {} THEN PrintT(<<"BAD", i, e.id, "fill-disagrees", {e.queries[k] : k \in disagree}>>)
           ELSE (nin = 0 \/ nin = Len(e.queries)) \/ PrintT(<<"NT", i>>)
 =============================================================================
